@@ -547,7 +547,8 @@ def history_strategy(draw):
     n_eng = draw(st.integers(2, 4))
     engines = [
         {
-            "node_attrs": draw(st.sampled_from([["element", "charge"], ["element"], ["element", "charge", "aromatic"], ["element", "aromatic"], []])),
+            # the same selection may be listed in any order by different engines
+            "node_attrs": list(draw(st.sampled_from([["element", "charge"], ["element"], ["element", "charge", "aromatic"], ["element", "aromatic"], []]).flatmap(st.permutations))),
             "edge_attrs": draw(st.sampled_from([["order"], ["order"], []])),
             "wl1_filter": draw(st.sampled_from([True, True, False])),
             "max_mappings": draw(st.sampled_from([None, 1])),
